@@ -641,17 +641,6 @@ theorem feed_append (hlen : ∀ key b, (B.enc key b).length = 16) (f : Feeder B)
   · rw [List.length_take, Nat.min_eq_left hc1]; exact granule_dvd_consumed _ _
   · rw [List.length_take, hlen2, Nat.min_eq_left (consumed_le _ _)]; exact granule_dvd_consumed _ _
 
-/-- a list of chunks fed one by one -/
-def feedMany : Feeder B → List Bytes → Except Err (Feeder B × Bytes)
-  | f, [] => .ok (f, [])
-  | f, c :: cs =>
-    match feed B f (some c) with
-    | .error e => .error e
-    | .ok (f1, o1) =>
-      match feedMany f1 cs with
-      | .error e => .error e
-      | .ok (f2, o2) => .ok (f2, o1 ++ o2)
-
 /-- any chunking of the input = one call with everything -/
 theorem feedMany_eq (hlen : ∀ key b, (B.enc key b).length = 16) (f : Feeder B) (buf : Bytes) (c : Bytes) (cs : List Bytes)
     (hb : f.buffer = some buf) (hseg : ∀ seg, f.mode.kind = .cfb seg → 0 < seg) :
@@ -672,6 +661,8 @@ theorem feedMany_eq (hlen : ∀ key b, (B.enc key b).length = 16) (f : Feeder B)
       simp only
       obtain ⟨hk1, _, _, hb1⟩ := feed_ok B f f1 buf c o1 hb hseg h1
       rw [ih f1 _ c2 hb1 (by rw [hk1]; exact hseg)]
+      generalize feed B f1 _ = r
+      rcases r with _ | ⟨f2, o2⟩ <;> rfl
 
 /-! ### the whole message: `feed(data)` then the finalising `feed()` -/
 
@@ -1163,5 +1154,64 @@ theorem feedAll_cfb (hlen : ∀ key b, (B.enc key b).length = 16) (f : Feeder B)
         congr 1
         have hle1 : o1.length ≤ data.length := by omega
         rw [List.take_append, List.take_of_length_le hle1, ho1, List.length_drop]
+
+theorem feedStreamChunks_eq (f : Feeder B) (cs : List Bytes) : feedStreamChunks B f cs = feedAllMany B f cs := rfl
+
+theorem readChunks_flatten (n : Nat) (hn : 0 < n) (fuel : Nat) (d : Bytes) (h : d.length < fuel) :
+    (readChunks n fuel d).flatten = d := by
+  induction fuel generalizing d with
+  | zero => omega
+  | succ fuel ih =>
+    unfold readChunks
+    cases d with
+    | nil => rfl
+    | cons x xs =>
+      simp only [List.isEmpty_cons, Bool.false_eq_true, if_false, List.flatten_cons]
+      rw [ih _ (by simp only [List.length_drop, List.length_cons] at *; omega)]
+      exact List.take_append_drop n (x :: xs)
+
+theorem readChunks_nonempty (n : Nat) (hn : 0 < n) (fuel : Nat) (d : Bytes) :
+    ∀ c ∈ readChunks n fuel d, c ≠ [] := by
+  induction fuel generalizing d with
+  | zero => intro c hc; simp [readChunks] at hc
+  | succ fuel ih =>
+    intro c hc
+    unfold readChunks at hc
+    cases d with
+    | nil => simp at hc
+    | cons x xs =>
+      simp only [List.isEmpty_cons, Bool.false_eq_true, if_false, List.mem_cons] at hc
+      rcases hc with rfl | hc
+      · cases n with
+        | zero => omega
+        | succ n => simp
+      · exact ih _ c hc
+
+/-- feeding nothing to a feeder that holds nothing changes nothing -/
+theorem feed_nil_fresh (f : Feeder B) (hb : f.buffer = some []) : feed B f (some []) = .ok (f, []) := by
+  obtain ⟨mode, dec, padding, buffer⟩ := f
+  simp only at hb
+  subst hb
+  simp [feed, feedLoop, bind, Except.bind, pure, Except.pure]
+
+/-- **`encrypt_stream` / `decrypt_stream`**: whatever chunks the `read` calls return, the bytes written are those of one
+`feed(data)` followed by `feed()` on the concatenation (same exception, if any) -/
+theorem feedStreamChunks_eq_feedAll (hlen : ∀ key b, (B.enc key b).length = 16) (f : Feeder B) (cs : List Bytes)
+    (hb : f.buffer = some []) (hseg : ∀ seg, f.mode.kind = .cfb seg → 0 < seg) :
+    feedStreamChunks B f cs = feedAll B f cs.flatten := by
+  cases cs with
+  | nil =>
+    simp only [feedStreamChunks, feedMany, feedAll, List.flatten_nil, feed_nil_fresh B f hb, List.nil_append]
+    generalize feed B f none = r
+    rcases r with _ | ⟨f2, o2⟩ <;> rfl
+  | cons c cs =>
+    rw [feedStreamChunks_eq, feedAllMany_eq B hlen f [] c cs hb hseg, List.flatten_cons]
+
+/-- … in particular for every block size `> 0` on a stream that reads completely -/
+theorem feedStream_eq_feedAll (hlen : ∀ key b, (B.enc key b).length = 16) (f : Feeder B) (n : Nat) (hn : 0 < n) (data : Bytes)
+    (hb : f.buffer = some []) (hseg : ∀ seg, f.mode.kind = .cfb seg → 0 < seg) :
+    feedStream B f n data = feedAll B f data := by
+  unfold feedStream
+  rw [feedStreamChunks_eq_feedAll B hlen f _ hb hseg, readChunks_flatten n hn _ data (by omega)]
 
 end Bec2Verif.Modes
